@@ -33,8 +33,20 @@ def build_mutgen():
     subprocess.run(['go', 'build', '-o', MUTGEN, '.'], cwd=os.path.join(ROOT, 'mutgen'), env=ENV, check=True)
 
 
+ORIG = '/repo'  # replaced by a snapshot taken at the start of a phase: /repo may get fix commits while a phase runs
+
+
+def snapshot(base):
+    global ORIG
+    d = os.path.join(base, 'orig')
+    subprocess.run(['rsync', '-a', '--exclude', '.git', '/repo/', d + '/'], check=True)
+    ORIG = d
+    head = subprocess.run(['git', '-C', '/repo', 'log', '--format=%h', '-1'], capture_output=True, text=True).stdout.strip()
+    return head
+
+
 def list_mutants():
-    out = subprocess.run([MUTGEN, '/repo'], capture_output=True, text=True, check=True).stdout
+    out = subprocess.run([MUTGEN, ORIG], capture_output=True, text=True, check=True).stdout
     ms = []
     for l in out.splitlines():
         f = l.split('\t')
@@ -44,7 +56,7 @@ def list_mutants():
 
 def fresh_copy(base):
     d = tempfile.mkdtemp(prefix='mut-', dir=base)
-    subprocess.run(['rsync', '-a', '--exclude', '.git', '/repo/', d + '/repo/'], check=True)
+    subprocess.run(['rsync', '-a', ORIG + '/', d + '/repo/'], check=True)
     return d + '/repo'
 
 
@@ -53,11 +65,14 @@ def apply(copy, mid):
 
 
 def restore(copy, rel):
-    shutil.copyfile(os.path.join('/repo', rel), os.path.join(copy, rel))
+    shutil.copyfile(os.path.join(ORIG, rel), os.path.join(copy, rel))
 
 
 def phase_a(jobs):
     os.makedirs(RES, exist_ok=True)
+    base = tempfile.mkdtemp(prefix='mutA-')
+    head = snapshot(base)
+    open(os.path.join(RES, 'COMMIT'), 'w').write(head + '\n')
     ms = list_mutants()
     done = {}
     pa = os.path.join(RES, 'phaseA.tsv')
@@ -65,7 +80,6 @@ def phase_a(jobs):
         for l in open(pa):
             f = l.rstrip('\n').split('\t')
             done[int(f[0])] = f
-    base = tempfile.mkdtemp(prefix='mutA-')
     q = queue.Queue()
     for m in ms:
         if m[0] not in done:
@@ -127,6 +141,10 @@ def phase_b(n, seed, prefix):
         for l in open(pb):
             done.add(int(l.split('\t')[0]))
     base = tempfile.mkdtemp(prefix='mutB-')
+    head = snapshot(base)
+    rec = open(os.path.join(RES, 'COMMIT')).read().strip()
+    if head != rec:
+        print(f'warning: phase A ran at {rec}, /repo is at {head}: mutant ids may have moved', file=sys.stderr)
     copy = fresh_copy(base)
     out = open(pb, 'a')
     count = 0
